@@ -29,7 +29,8 @@ RULE = ("time grids (odd/even lengths 2..40, four sampling steps, zero / positiv
         "temperature and resistance; a callable amplitude answering with one number (repaired as F19); a derived "
         "object shifted in place while other handles stay live; handed-out traces (with_times results; the trace returned by "
         "the first and by later Antenna.make_noise calls, also after clear(reset_noise=True)) modified in place by *=, /=, "
-        "filter_frequencies, shift, resample, set_buffers before noise / full_waveform / all_waveforms are requested again; a case is non-trivial when the basis is non-empty; "
+        "filter_frequencies, shift, resample, set_buffers before noise / full_waveform / all_waveforms are requested again; a sibling object built in the same process, "
+        "before or after, with the same point count, band and uniqueness and a sampling step 0.01-0.1 % off; a case is non-trivial when the basis is non-empty; "
         "distinct = distinct (class, grid, band, spec, uniqueness) tuples")
 LEVEL_TEXT = ("theorems (cosine-sum form of both classes, band membership, irfft = cosine sum for bins strictly between "
               "DC and Nyquist, half-weight Nyquist bin, periodic interpolation consistent iff the period is n*dt, unit "
@@ -548,6 +549,12 @@ def _oracle(inp):
     case = inp["case"]
     cls = case["cls"]
     out = []
+    # a sibling object in the same process: same number of points, same band, same uniqueness, a sampling step that
+    # differs by a fraction of a per cent (far below a picosecond) - built before or after the object under test
+    sib = None
+    sib_spec = inp.get("sibling")
+    if sib_spec and sib_spec["first"]:
+        sib = _build_sibling(case, inp["seed"], sib_spec["factor"])
     np.random.seed(inp["seed"])
     must_reject = case["fmax"] <= case["fmin"] or (case["rms"] is None and (case.get("T") is None or case.get("R") is None))
     try:
@@ -949,7 +956,43 @@ def _oracle(inp):
     if np.max(np.abs(again - v)) > tol:
         out.append(("repeat", float(np.max(np.abs(again - v))), 0.0,
                     "evaluating the same object twice on the same times gives different values", None))
+    # (10) the sibling built in the same process publishes the bins of ITS OWN grid and is the cosine sum of its basis;
+    #      building it afterwards does not disturb the object under test
+    if sib_spec:
+        if sib is None:
+            sib = _build_sibling(case, inp["seed"], sib_spec["factor"])
+            compare("sibling", np.array(nz.with_times(times).values), ref, np.arange(n), tol,
+                    "the object departs from its basis waveform after a sibling with a slightly different sampling step "
+                    "was built in the same process", [sib_spec["factor"]])
+        if sib is not None:
+            sz, st = sib
+            if cls == "fft":
+                nall_s = max(1, int(case["uniq"])) * n
+                dts = float(st[1] - st[0])
+                own = [k * (1.0 / (nall_s * dts)) for k in range(nall_s // 2 + 1)]
+                own = [f for f in own if case["fmin"] <= f <= case["fmax"]]
+                if [float(f) for f in sz.freqs] != own:
+                    out.append(("sibling", [float(f) for f in sz.freqs[:4]], own[:4],
+                                "an object built %s a sibling with a sampling step differing by the factor %r publishes "
+                                "frequencies that are not the FFT bins of its own grid"
+                                % ("after" if sib_spec["first"] else "before", sib_spec["factor"]), None))
+            if len(sz.freqs) and not in_k4(dict(case), sz):
+                sv = np.array(sz.values)
+                sr = cos_sum(sz, cls, st, st[0] if cls == "fft" else 0.0)
+                scs = sz.rms * math.sqrt(2 / len(sz.freqs)) * float(np.sum(np.abs(sz.amps)))
+                if np.max(np.abs(sv - sr)) > 1e-9 * scs + 1e-300:
+                    out.append(("sibling", float(np.max(np.abs(sv - sr))), 0.0, "a sibling object (sampling step x %r, built %s) "
+                                "is not the cosine sum of its published basis"
+                                % (sib_spec["factor"], "first" if sib_spec["first"] else "second"), None))
     return out
+
+
+def _build_sibling(case, seed, factor):
+    np.random.seed(seed + 17)
+    try:
+        return construct(dict(case, dt=case["dt"] * factor, pad=None, tform="array"))
+    except ValueError:
+        return None
 
 
 def oracle(inp):
@@ -1054,7 +1097,9 @@ def gen_oracle_input(run, i):
     return {"case": case, "seed": rng.randrange(2 ** 31),
             "shifts": [rng.randint(-3 * case["n"], 3 * case["n"]), rng.randint(1, max(1, case["n"] - 1))],
             "regrids": regrid_specs(run, case, 6), "replace_rms": rng.random() < 0.3, "replace_freqs": rng.random() < 0.3,
-            "inplace": rng.sample(INPLACE_OPS, 3) if rng.random() < 0.5 else []}
+            "inplace": rng.sample(INPLACE_OPS, 3) if rng.random() < 0.5 else [],
+            "sibling": {"factor": 1 + rng.choice([-1, 1]) * rng.choice([1e-4, 3e-4, 1e-3]), "first": rng.random() < 0.5}
+            if rng.random() < 0.5 else None}
 
 
 def report(run, inp, res):
